@@ -224,6 +224,18 @@ func (g *gen) word(min, max int) string {
 	return string(b)
 }
 
+// parDesc: a description that is written as a paragraph (network, bus, node, message, enum):
+// in special mode it may look like a Markdown block or span several lines.
+func (g *gen) parDesc() string {
+	if g.o.Special && g.r.chance(40) {
+		pool := []string{"---", "===", "----------", "# one", "## two", "### three", "- item", "* item", "+ item", "> quoted",
+			"| a | b |", "___", "***", "~~~", "```", "first line\nsecond line", "title\n---", "title\n===", "a\n  ## b\nc",
+			"text\n- item\n> quote", "  # indented", "\t- tab"}
+		return pool[g.r.below(len(pool))]
+	}
+	return g.desc()
+}
+
 // cellDesc: a description that is only ever written into a table cell (signals, types, units,
 // enum values): may also contain line breaks.
 func (g *gen) cellDesc() string {
@@ -289,7 +301,7 @@ func genSpec(r *rng, o genOpts) *Spec {
 		o.MaxDepth = 3
 		g.o.MaxDepth = 3
 	}
-	sp := &Spec{Name: g.uname("net"), Desc: g.desc(), Ties: o.Ties}
+	sp := &Spec{Name: g.uname("net"), Desc: g.parDesc(), Ties: o.Ties}
 
 	nTypes := 2 + r.below(4)
 	for i := 0; i < nTypes; i++ {
@@ -345,7 +357,7 @@ func genSpec(r *rng, o genOpts) *Spec {
 	}
 	nEnums := 2 + r.below(3)
 	for i := 0; i < nEnums; i++ {
-		e := EnumSpec{Name: g.pname("en"), Desc: g.desc()}
+		e := EnumSpec{Name: g.pname("en"), Desc: g.parDesc()}
 		if r.chance(25) {
 			e.MinSize = 1 + r.below(6)
 		}
@@ -439,7 +451,7 @@ func genSpec(r *rng, o genOpts) *Spec {
 
 	nNodes := 2 + r.below(4)
 	for i := 0; i < nNodes; i++ {
-		n := NodeSpec{Name: g.uname("node"), Desc: g.desc(), ID: uint32(i + 1), IfCount: 1 + r.below(2)}
+		n := NodeSpec{Name: g.uname("node"), Desc: g.parDesc(), ID: uint32(i + 1), IfCount: 1 + r.below(2)}
 		if o.Ties && i > 0 && r.chance(50) {
 			// equal node ids / names on nodes that will sit on different buses or on none
 			n.ID = sp.Nodes[i-1].ID
@@ -464,7 +476,7 @@ func genSpec(r *rng, o genOpts) *Spec {
 		nBuses = o.Buses
 	}
 	for bi := 0; bi < nBuses; bi++ {
-		b := &BusSpec{Name: g.uname("bus"), Desc: g.desc(), Builder: -1}
+		b := &BusSpec{Name: g.uname("bus"), Desc: g.parDesc(), Builder: -1}
 		if r.chance(70) {
 			b.Baud = []int{125000, 250000, 500000, 1000000}[r.below(4)]
 		}
@@ -619,7 +631,7 @@ func (g *gen) assigns(sp *Spec, pct int) []AssignSpec {
 
 func (g *gen) message(sp *Spec, allIfs []IfRef, self IfRef) *MsgSpec {
 	r := g.r
-	m := &MsgSpec{Name: g.uname("msg"), Desc: g.desc(), ID: uint32(1 + r.below(60)), SizeByte: 1 + r.below(8)}
+	m := &MsgSpec{Name: g.uname("msg"), Desc: g.parDesc(), ID: uint32(1 + r.below(60)), SizeByte: 1 + r.below(8)}
 	if r.chance(30) {
 		m.Static, m.StaticID = true, uint32(1+r.below(2000))
 	}
